@@ -80,7 +80,7 @@ func runC09(c *Ctx) Info {
 		}
 	}
 	return Info{
-		Explanation: "Rule PROGRESS over every natural loop of every function reachable from a decoding entry point: proved when each back edge strictly moves an integer variable that an exit test reads (ranking argument; increments evaluated with engine E2 through the merges of the loop body), or when every cycle passes a cursor primitive (io.ReadFull / Reader.ReadByte / Parser reads / bit readers) whose bottom-up summary consumes at least one unit on every non-error return. Violated only on the witness shape: a cycle that leaves every variable read by the exit tests exactly unchanged and calls no cursor primitive. The time and memory budgets of the statement are quantities and are not decided.",
+		Explanation:  "Rule PROGRESS over every natural loop of every function reachable from a decoding entry point: proved when each back edge strictly moves an integer variable that an exit test reads (ranking argument; increments evaluated with engine E2 through the merges of the loop body), or when every cycle passes a cursor primitive (io.ReadFull / Reader.ReadByte / Parser reads / bit readers) whose bottom-up summary consumes at least one unit on every non-error return. Violated only on the witness shape: a cycle that leaves every variable read by the exit tests exactly unchanged and calls no cursor primitive. The time and memory budgets of the statement are quantities and are not decided.",
 		DoesNotCover: "the 10 s / 512 MiB + 64*S budgets; allocation sizes (only negative/wrapped sizes under C08 MAKE); loops whose progress is relational",
 		Trusted:      commonTrusted,
 		Assumptions:  rangeAssumptions,
